@@ -280,7 +280,12 @@ func VerifC12Expiry() {
 	g = newConsumerGroup("srv", T, &proto.ConsumerGroup{Id: "g", Coordinator: "srv", Epoch: 1}, false,
 		vLog{}, handler, getParts)
 	now := time.Duration(0)
-	deadline := make([]time.Duration, len(ids)) // when the member expires unless heard of
+	// a member expires, unless heard of, no earlier than deadline[m] and no
+	// later than late[m]: the two differ after a failed removal, which is
+	// retried one timeout after the moment the expiry callback ran - some time
+	// between the deadline and the end of the step in which it fell due
+	deadline := make([]time.Duration, len(ids))
+	late := make([]time.Duration, len(ids))
 	coordinator := true
 	for st := 0; st < steps; st++ {
 		switch vChoose(5) {
@@ -299,7 +304,7 @@ func VerifC12Expiry() {
 			epoch++
 			vAssert(g.AddMember(ids[m], sl, epoch) == nil, "AddMember succeeds")
 			live[m] = true
-			deadline[m] = now + T
+			deadline[m], late[m] = now+T, now+T
 			vCover("join")
 		case 1: // a member polls its assignments
 			m := vChoose(len(ids))
@@ -309,7 +314,7 @@ func VerifC12Expiry() {
 			_, _, err := g.GetAssignments(ids[m], epoch)
 			if coordinator {
 				vAssert(err == nil, "the coordinator serves a live member")
-				deadline[m] = now + T
+				deadline[m], late[m] = now+T, now+T
 				vCover("poll")
 			} else {
 				vAssert(err == ErrBrokerNotCoordinator, "only the coordinator serves assignments")
@@ -325,13 +330,15 @@ func VerifC12Expiry() {
 			before := len(expired)
 			wasLive := append([]bool{}, live...)
 			wasDeadline := append([]time.Duration{}, deadline...)
+			wasLate := append([]time.Duration{}, late...)
 			failing := failNext
 			vAdvance(d)
 			now += d
 			failedNow := failing && !failNext
 			nexp := 0
 			for m := range ids {
-				due := coordinator && wasLive[m] && wasDeadline[m] <= now
+				mayBeDue := coordinator && wasLive[m] && wasDeadline[m] <= now
+				mustBeDue := coordinator && wasLive[m] && wasLate[m] <= now
 				gone := false
 				for _, e := range expired[before:] {
 					if e == ids[m] {
@@ -339,14 +346,15 @@ func VerifC12Expiry() {
 						nexp++
 					}
 				}
-				if !due {
+				if !mayBeDue {
 					vAssert(!gone, "a member heard of within the timeout is not expired")
-				} else if !failedNow {
+				} else if mustBeDue && !failedNow {
 					vAssert(gone, "a member not heard of for a full timeout is expired")
 				}
-				if due && !gone {
-					// its removal failed: the coordinator tries again a timeout later
-					deadline[m] = wasDeadline[m] + T
+				if mayBeDue && !gone && failedNow {
+					// its removal failed: the coordinator tries again a timeout
+					// after the callback ran
+					deadline[m], late[m] = wasDeadline[m]+T, now+T
 				}
 				if gone {
 					vCover("expired")
@@ -365,7 +373,7 @@ func VerifC12Expiry() {
 				vAssert(g.SetCoordinator("srv", epoch) == nil, "SetCoordinator succeeds")
 				coordinator = true
 				for m := range ids {
-					deadline[m] = now + T
+					deadline[m], late[m] = now+T, now+T
 				}
 				vCover("coordinator-back")
 			}
